@@ -286,6 +286,10 @@ class EngineSim(TreeSim):
                 out[k] = pd.Series([float("nan") if x is None else x for x in v["data"]], index=ridx)
             elif kind == "unit_risk":
                 out[k] = {m: pd.DataFrame(np.array([[float("nan") if x is None else x for x in r] for r in fr["data"]], dtype=float).reshape(len(idx), len(fr["cols"])), index=idx, columns=fr["cols"]) for m, fr in v["measures"].items()}
+            elif kind == "blotter":
+                # a list of executed trades (Date, Security | quantity, price) in whatever order the rows come
+                mi = pd.MultiIndex.from_tuples([(pd.Timestamp(r[0]), r[1]) for r in v["rows"]], names=["Date", "Security"])
+                out[k] = pd.DataFrame({"quantity": [float(r[2]) for r in v["rows"]], "price": [float(r[3]) for r in v["rows"]]}, index=mi)
             elif kind == "table":
                 df = pd.DataFrame(v["data"], index=v["index"], columns=v["cols"])
                 for c in v.get("datecols", []):
@@ -719,6 +723,38 @@ def gen_all_algos_plan(rng, tier="quick", stateful=False, random_algos=True):
     return {"driver": "engine", "cfg": cfg, "tree": root, "feed": fspec, "extra": extra, "fired": fired}
 
 
+def gen_replay_plan(rng, tier="quick"):
+    """a blotter of executed trades (arbitrary timestamps and prices, rows in any order: by time, by security, shuffled) replayed
+    by ReplayTransactions: what is executed by a date is the lines stamped up to that date, whatever comes later in the file"""
+    import datetime as dt
+
+    ndates = rng.randint(6, 20 if tier == "thorough" else 14)
+    fspec, fired = gen_feed(rng, ndates, rng.randint(2, 4), style=rng.choice(["bday", "gaps"]), faults={}, spread_p=0.0)
+    dates, tickers = fspec["dates"], fspec["tickers"]
+    fspec["bidoffer"] = [[0.0 for _ in tickers] for _ in dates]  # (custom-price trades need the bid/offer bookkeeping switched on)
+    rows = []
+    for j, t in enumerate(tickers):
+        for i in sorted(rng.sample(range(ndates), rng.randint(1, min(5, ndates)))):
+            d = dt.datetime.fromisoformat(dates[i])
+            if i > 0 and rng.random() < 0.3:
+                # stamped between two dates of the data: executed by the later one
+                d = d - (d - dt.datetime.fromisoformat(dates[i - 1])) / 2
+            px = fspec["prices"][i][j]
+            rows.append([d.isoformat(), t, float(rng.choice([1, 1, -1]) * rng.choice([10, 50, 200, 1000])), round(px * rng.uniform(0.98, 1.02), 4)])
+    order = rng.choice(["by_security", "by_time", "shuffled", "reversed"])
+    if order == "by_time":
+        rows.sort(key=lambda r: r[0])
+    elif order == "reversed":
+        rows.sort(key=lambda r: r[0], reverse=True)
+    elif order == "shuffled":
+        rng.shuffle(rows)
+    kids = [{"k": "X", "name": t, "cls": "Security", "mult": 1.0, "decl": "obj"} for t in tickers]
+    root = {"k": "S", "name": "top", "cls": "Strategy", "fi": False, "how": "list", "children": kids, "algos": [{"a": "ReplayTransactions", "args": ["tx"]}]}
+    fired["blotter_" + order] = 1
+    cfg = {"integer": False, "comm": None, "capital": 1e6, "fi": False, "obs_price": False, "obs_eod": False, "profile": "replay"}
+    return {"driver": "engine", "cfg": cfg, "tree": root, "feed": fspec, "extra": {"tx": {"kind": "blotter", "rows": rows}}, "fired": fired}
+
+
 def gen_frame_gate_plan(rng, tier="quick"):
     """a drifting portfolio whose only rebalancing trigger reads a supplied frame (PTE_Rebalance on dated target weights that
     start after a warm-up and change from date to date): what the trigger sees on a date decides everything recorded from there on"""
@@ -959,6 +995,12 @@ def gen_fi_plan(rng, tier="quick"):
         ws = {n: round(x / tot, 4) * rng.choice([1, 1, 1, -1]) for n, x in zip(sel, raw)}
         data.append([ws.get(n) for n in targets])
     extra = {"tw": _frame(targets, data, rows=rows), "notl": {"kind": "series", "data": [rng.choice([1000.0, 5000.0, 2500.0, 1e5]) for _ in dates]}}
+    if rng.random() < 0.3 and ndates >= 4:
+        # the book is wound down to a notional of exactly zero for a stretch (every target then is zero), and re-opened
+        a0 = rng.randint(1, ndates - 2)
+        for i in range(a0, min(ndates, a0 + rng.randint(1, 2))):
+            extra["notl"]["data"][i] = 0.0
+        fired["notional_set_to_zero"] = 1
     st = [{"a": "WeighTarget", "args": ["tw"]}]
     if rng.random() < 0.8:
         st.insert(0, {"a": "SetNotional", "args": ["notl"]})
